@@ -92,6 +92,12 @@ def run(ctx):
                 r = ex(prog, cf).local(0)
                 if r[0] == 'agg' and r[3] == 'MalformedTransaction':
                     mal = True
+    if not mal:
+        from sa.util import table
+        from sa import pat as PP
+        for _, val, conds in table(prog, F):
+            if PP.agg(variant='Err', _0=PP.agg(variant='MalformedTransaction'))(val) and any(c[0] == 'is' and set(c[2]) & {'Err', 'Break'} for c in conds):
+                mal = True
     ctx.check(mal, 'R1', 'error-kind', dec, 'decode failure is reported as MalformedTransaction', 'decode failure is not mapped to MalformedTransaction')
     # ---------------- R2 -----------------------------------------------------------------------
     for i, d in enumerate(decs):
